@@ -519,7 +519,7 @@ func TestProp(t *testing.T) {
 		return
 	}
 	all := !r.Quick()
-	r.Rapid(t, "loads", r.Pick(5000, 80000), func(t *rapid.T) {
+	r.Rapid(t, "loads", r.Pick(5000, 50000), func(t *rapid.T) {
 		c := genCase(all).Draw(t, "case")
 		st, err := check(c)
 		r.Label("sampled")
